@@ -69,8 +69,10 @@ class World:
     def call(self, n):
         target, kind = self.t[n]
         name = (self.prog.op1 if n == 1 else self.prog.op2)
+        container = name.endswith("+c")  # "+c": the operation's value argument is a container
+        name = name[:-2] if container else name
         op = op_by_name(kind, name)
-        v = 10 + n
+        v = {"k": 10 + n} if container else 10 + n
         a = ops.A(v=v, w=v + 10, i=0, j=1)
         return op.fn(target, a)  # converted to plain data only after both threads are done
 
